@@ -61,6 +61,7 @@ type sgConn struct {
 	mark   chan *qnet.Message // barrier frames arrive here once everything before them has been dispatched
 	markID uint32
 	wire   int64 // events of the signal (object 1) that have arrived on the connection, subscribed to or not
+	others []uint64 // registrations for another signal made on this connection (sg.other), oldest first
 }
 
 type sgSub struct {
@@ -311,6 +312,20 @@ func execSg(op string) func(a []string) string {
 			if _, err := bus.MakeObject(w.conns[n(0)].proxy).RegisterEvent(1, 999, sgOtherUID); err != nil {
 				return "error:" + err.Error()
 			}
+			w.conns[n(0)].others = append(w.conns[n(0)].others, sgOtherUID)
+			return "ok"
+		case "unother":
+			// the oldest registration for the other signal made on this connection is given up: the
+			// registrations of the signal itself, on this connection and the others, are what they were
+			c := w.conns[n(0)]
+			if len(c.others) == 0 {
+				return "bad-op"
+			}
+			uid := c.others[0]
+			c.others = c.others[1:]
+			if err := bus.MakeObject(c.proxy).UnregisterEvent(1, 999, uid); err != nil {
+				return "error:" + err.Error()
+			}
 			return "ok"
 		case "wire":
 			// how many events of the signal the server has put on this connection so far
@@ -329,6 +344,17 @@ func execSg(op string) func(a []string) string {
 			return "ok"
 		case "release":
 			k := n(0)
+			// a subscriber whose cancel waits behind the held traffic still receives; it has read everything
+			// that has been dispatched to it before the release lets its cancel complete (what is queued for
+			// the fan-out goroutine at that moment is dropped: sg.burstcancel, a listed finding)
+			for _, s := range w.subs {
+				s.mu.Lock()
+				st := s.started
+				s.mu.Unlock()
+				if s.conn == k && st {
+					s.stable()
+				}
+			}
 			w.conns[k].hold.set(false)
 			// whatever was waiting on this connection completes now
 			for _, s := range w.subs {
@@ -795,7 +821,7 @@ func init() {
 		}
 		return r
 	}
-	for _, op := range []string{"other", "wire", "subfail", "observe", "oterm", "holdunreg", "reset", "conn", "hold", "release", "sub", "cancel", "emit", "call", "got", "osub", "ocancel", "oemit", "ogot"} {
+	for _, op := range []string{"other", "unother", "wire", "subfail", "observe", "oterm", "holdunreg", "reset", "conn", "hold", "release", "sub", "cancel", "emit", "call", "got", "osub", "ocancel", "oemit", "ogot"} {
 		executors["sg."+op] = execSg(op)
 	}
 	executors["sg.burstcancel"] = func(a []string) string {
@@ -844,6 +870,7 @@ func runC13(r *Rand, tier string, o *Out) {
 		oterminated := false
 		held := make([]bool, nconn)
 		waiting := make([]int, nconn) // operations waiting for the lock of that connection's client
+		others := make([]int, nconn)  // registrations for another signal on that connection
 		steps := 8 + r.Intn(18)
 		for i := 0; i < steps; i++ {
 			k := r.Intn(nconn)
@@ -943,8 +970,15 @@ func runC13(r *Rand, tier string, o *Out) {
 				}
 			case c < 82:
 				if !held[k] && waiting[k] == 0 {
-					o.Do("P", fmt.Sprintf("sg.other %d", k), true)
-					o.Count("op:registration-for-another-signal")
+					if others[k] > 0 && r.Chance(50) {
+						o.Do("P", fmt.Sprintf("sg.unother %d", k), true)
+						others[k]--
+						o.Count("op:registration-for-another-signal-given-up")
+					} else {
+						o.Do("P", fmt.Sprintf("sg.other %d", k), true)
+						others[k]++
+						o.Count("op:registration-for-another-signal")
+					}
 				}
 			case c < 90:
 				if !held[k] && waiting[k] == 0 {
@@ -1024,9 +1058,12 @@ func runC13(r *Rand, tier string, o *Out) {
 		"sg.reset", "sg.conn", "sg.conn", "sg.conn", "sg.sub 0", "sg.other 1", "sg.sub 2", "sg.other 2", fmt.Sprintf("sg.emit %d", emitN-2),
 		"sg.cancel 0", fmt.Sprintf("sg.emit %d", emitN-1), "sg.wire 0", "sg.wire 1", "sg.wire 2", "sg.cancel 1", fmt.Sprintf("sg.emit %d", emitN),
 		"sg.wire 0", "sg.wire 2", "sg.got 0", "sg.got 1",
+		// a registration for another signal is given up on a connection that keeps its subscription to this one
+		"sg.unother 2", fmt.Sprintf("sg.emit %d", emitN+1), "sg.wire 2", "sg.got 1", "sg.other 2", "sg.unother 2", "sg.unother 1", fmt.Sprintf("sg.emit %d", emitN+2), "sg.got 1", "sg.wire 1",
 	} {
 		o.Do("P", l, true)
 	}
+	emitN += 2
 	// an unregistration acknowledged while an emission is between its copy of the users and its writes
 	if out := o.Do("P", "sg.emitrace", true); sgLastRace == "late=1" {
 		o.Fail("an event is sent after the acknowledgement of the removal: the emission had copied the users before", "sg.emitrace => late=1")
